@@ -23,6 +23,10 @@ type C04Case struct {
 	SealBit int `json:",omitempty"`
 	// Cut > 0: after the field edit the file is cut to this many bytes
 	Cut int `json:",omitempty"`
+	// Buf > 0: the caller reads with buffers of this size (default 4096). For field edits: 1, and the
+	// content length of the first block / of the first two blocks, so that one Read ends exactly
+	// where a block's content ends and the next Read meets the block's end with nothing to deliver
+	Buf int `json:",omitempty"`
 }
 
 func init() {
@@ -74,8 +78,12 @@ func c04Streams(level int) []Stream {
 	return out
 }
 
-func c04Judge(r *core.Run, cs core.Case, s Stream, mutated []byte, site, desc string, mustErr bool) {
+func c04Judge(r *core.Run, cs core.Case, s Stream, mutated []byte, site, desc string, mustErr bool, buf ...int) {
 	out, err, proto, pan := xzDecode(mutated, 0, false)
+	if len(buf) > 0 && buf[0] > 0 {
+		out, err, proto, pan = libDecodeBuf("xz", mutated, 0, buf[0])
+		desc += fmt.Sprintf(", caller buffer %d", buf[0])
+	}
 	cls := errClass(err)
 	switch {
 	case pan != nil:
@@ -210,6 +218,23 @@ func c04Struct(r *core.Run, s Stream, e StructEdit) {
 	}
 	r.Count("struct_edits", 1)
 	c04Judge(r, cs, s, mutated, "xz edit "+editClass(e.Name), desc, true)
+	// read schedules: byte-wise, and buffers that end exactly at the end of a block's content
+	{
+		bufs := []int{1}
+		if bx := ref.DecodeXZ(s.Data, ref.XZOptions{}); bx.Err == nil && len(bx.Streams) == 1 {
+			sum := 0
+			for i, b := range bx.Streams[0].Blocks {
+				sum += b.UncompSize
+				if i < 2 && sum > 1 {
+					bufs = append(bufs, sum)
+				}
+			}
+		}
+		for _, b := range bufs {
+			csb := core.MkCase("C04", "mutate", C04Case{Stream: s.Name, Edit: e.Name, Buf: b})
+			c04Judge(r, csb, s, mutated, "xz edit "+editClass(e.Name), desc, true, b)
+		}
+	}
 	// deviation bound 2: the edited file additionally ends early, at every
 	// byte offset behind the stream header. A damaged header must not turn the missing rest into a
 	// regular end of stream.
